@@ -61,6 +61,10 @@ class Ref:
             k = st[0]
             if k == "block":
                 self._scope(st[1], env_stack, out, scope_path)
+            elif k == "scope":
+                frame = self._scope(st[2], env_stack, out, scope_path)
+                for name, key in list(frame["labels"].items()):
+                    env_stack[-1]["labels"][f"{st[1]}.{name}"] = key
             elif k == "for":
                 lo = self.lookup_const(st[2], env_stack) if isinstance(st[2], str) else st[2]
                 hi = self.lookup_const(st[3], env_stack) if isinstance(st[3], str) else st[3]
@@ -110,6 +114,7 @@ class Ref:
         env_stack.append(frame)
         self.expand(body, env_stack, out, scope_path)
         env_stack.pop()
+        return frame
 
     def lookup_const(self, name, env_stack):
         for f in reversed(env_stack):
@@ -126,19 +131,14 @@ class Ref:
                     return f["consts"][v]
                 if v in f["labels"]:
                     return ("labelref", f["labels"][v])
-            raise KeyError(v)
+            # a label that becomes visible later (forward reference, export of a named scope defined further down):
+            # resolved lexically against the same chain of scopes once all labels are known
+            return ("lazy", v, tuple(env_stack))
         return v
 
     def resolve_refs(self, st, env_stack):
         def res(v):
-            if isinstance(v, str):
-                for f in reversed(env_stack):
-                    if v in f["consts"]:
-                        return f["consts"][v]
-                    if v in f["labels"]:
-                        return ("labelref", f["labels"][v])
-                raise KeyError(v)
-            return v
+            return self.resolve_value(v, env_stack)
         if st[0] in ("db", "dw", "dl"):
             return (st[0], [res(v) for v in st[1]])
         if st[0] in ("imm", "abs"):
@@ -181,6 +181,11 @@ class Ref:
         off = None
 
         def val(v):
+            if isinstance(v, tuple) and v[0] == "lazy":
+                for f in reversed(v[2]):
+                    if v[1] in f["labels"]:
+                        return labels[f["labels"][v[1]]]
+                raise KeyError(v[1])
             return labels[v[1]] if isinstance(v, tuple) else v
         for st in flat:
             k = st[0]
@@ -253,6 +258,10 @@ def render(program, rng, indent=0):
             out.append(pad + "}")
         elif k == "apply":
             out.append(f"{pad}{st[1]}({rng.choice([', ', ',']).join(num(a) for a in st[2])})".replace("\u200b", ""))
+        elif k == "scope":
+            out.append(f"{pad}.scope {st[1]} {{")
+            out.append(render(st[2], rng, indent + 2))
+            out.append(pad + "}")
         elif k == "block":
             out.append(pad + "{")
             out.append(render(st[1], rng, indent + 2))
